@@ -355,7 +355,144 @@ type c19Obj struct {
 
 const c19CallSrc = `func r0() { }; func r1(a int) int { return a + 1 }; func r3(a int, s string) (int, string, float64) { return a * 2, s + "!", 1.5 }
 func rv(a int, xs ...int) (int, int) { t := 0; for _, x := range xs { t += x }; return a, t }
-type T struct { A int }; func (t *T) Get(k int) (int, int) { return t.A, k }; obj := &T{A: 9}; mv := obj.Get`
+type T struct { A int }; func (t *T) Get(k int) (int, int) { return t.A, k }; obj := &T{A: 9}; mv := obj.Get
+func fwd3(a int, s string) (int, string, float64) { h := func(x int) int { return x + 1 }; _ = h(1); return r3(a, s) }
+func fwdv(a int, xs ...int) (int, int) { note := func() { }; note(); return rv(a, xs...) }
+func fwd1(a int) int { pair := func() (int, int) { return 1, 2 }; p, q := pair(); _, _ = p, q; return r1(a) }`
+
+// c19StructCase: instances built with NewStruct, with and without initialisers, next to script-made ones: every
+// instance has its own fields; a field reads the value given for it, otherwise the zero value.
+func c19StructCase(seed int64, idx int) (string, c19Case) {
+	rng := core.Derive(seed, "c19-struct", idx)
+	cs := c19Case{Kind: "struct", Seed: seed, Idx: idx}
+	m := core.NewMachine(core.VMOpts{Optimize: rng.Bool(), Obs: core.NewObs(core.SmallBudget, false, nil)})
+	if o := m.Eval(nil, "import \"fmt\"\ntype P struct { X int; Name string; F float64; L []int }\nfunc mkP() *P { return &P{} }\nfunc mkN(n string) *P { return &P{Name: n} }\nfunc show(p *P) string { return fmt.Sprint(p.X, p.Name, p.F, len(p.L)) }"); o.Failed() {
+		return "set-up failed: " + o.Err + o.Panic, cs
+	}
+	base := m.VM.Get("main.P")
+	I, S, F := goatlang.Int, goatlang.String, goatlang.Float64
+	type inst struct {
+		v    goatlang.Value
+		x    int
+		name string
+		f    float64
+		how  string
+	}
+	var all []*inst
+	mk := func() *inst {
+		in := &inst{}
+		switch rng.Intn(5) {
+		case 0:
+			in.v, in.how = goatlang.NewStruct(base, nil), "NewStruct(P, nil)"
+		case 1:
+			in.v, in.how = goatlang.NewStruct(base, []goatlang.Value{}), "NewStruct(P, {})"
+		case 2:
+			in.name = fmt.Sprintf("n%d", rng.Intn(99))
+			in.v, in.how = goatlang.NewStruct(base, []goatlang.Value{S("Name"), S(in.name)}), "NewStruct(P, {Name})"
+		case 3:
+			in.x, in.f = rng.Intn(999)+1, float64(rng.Intn(99))+0.5
+			in.v, in.how = goatlang.NewStruct(base, []goatlang.Value{S("X"), I(in.x), S("F"), F(in.f)}), "NewStruct(P, {X, F})"
+		default:
+			rets, err := m.VM.Call("main.mkP", 1)
+			if err != nil || len(rets) != 1 {
+				return nil
+			}
+			in.v, in.how = rets[0], "&P{} in the script"
+		}
+		return in
+	}
+	verify := func(when string) string {
+		for i, in := range all {
+			got := fmt.Sprint(in.v.GetAttr("X").Int(), in.v.GetAttr("Name").String(), in.v.GetAttr("F").Float64())
+			want := fmt.Sprint(in.x, in.name, in.f)
+			if got != want {
+				return fmt.Sprintf("%s: instance %d (%s) reads X, Name, F = %s; it was given %s", when, i, in.how, got, want)
+			}
+			o := m.Call("main.show", 1, in.v)
+			if o.Failed() || len(o.Rets) != 1 || o.Rets[0] != fmt.Sprint(in.x, in.name, in.f, 0) {
+				return fmt.Sprintf("%s: the script reads instance %d (%s) as %v %s; it was given %s", when, i, in.how, o.Rets, o.Err, want)
+			}
+		}
+		return ""
+	}
+	for step := rng.Range(3, 8); step > 0; step-- {
+		if len(all) == 0 || rng.Bool() {
+			in := mk()
+			if in == nil {
+				return "mkP failed", cs
+			}
+			all = append(all, in)
+			cs.Args = append(cs.Args, in.how)
+		} else {
+			in := all[rng.Intn(len(all))]
+			switch rng.Intn(3) {
+			case 0:
+				in.x = rng.Intn(999) + 1
+				in.v.SetAttr("X", I(in.x))
+				cs.Args = append(cs.Args, "SetAttr X")
+			case 1:
+				in.name = fmt.Sprintf("s%d", rng.Intn(99))
+				in.v.SetAttr("Name", S(in.name))
+				cs.Args = append(cs.Args, "SetAttr Name")
+			default:
+				in.f = float64(rng.Intn(99)) + 0.25
+				in.v.SetAttr("F", F(in.f))
+				cs.Args = append(cs.Args, "SetAttr F")
+			}
+		}
+		if what := verify(fmt.Sprint("after ", cs.Args)); what != "" {
+			return what, cs
+		}
+	}
+	return "", cs
+}
+
+// c19EchoCase: natives whose result slice is (part of) the argument slice they were handed.
+func c19EchoCase(seed int64, idx int) (string, c19Case) {
+	rng := core.Derive(seed, "c19-echo", idx)
+	cs := c19Case{Kind: "echo", Seed: seed, Idx: idx}
+	m := core.NewMachine(core.VMOpts{Optimize: rng.Bool(), Obs: core.NewObs(core.SmallBudget, false, nil)})
+	V := goatlang.Value{}
+	_ = V
+	m.VM.Set("builtin.echo2", goatlang.NewFunc(2, 2, func(v *goatlang.VM, args []goatlang.Value) []goatlang.Value { return args }))
+	m.VM.Set("builtin.echo3", goatlang.NewFunc(3, 3, func(v *goatlang.VM, args []goatlang.Value) []goatlang.Value { return args }))
+	m.VM.Set("builtin.tail", goatlang.NewFunc(3, 2, func(v *goatlang.VM, args []goatlang.Value) []goatlang.Value { return args[1:] }))
+	m.VM.Set("builtin.head", goatlang.NewFunc(3, 1, func(v *goatlang.VM, args []goatlang.Value) goatlang.Value { return args[0] }))
+	m.VM.Set("builtin.swap", goatlang.NewFunc(2, 2, func(v *goatlang.VM, args []goatlang.Value) []goatlang.Value {
+		args[0], args[1] = args[1], args[0]
+		return args
+	}))
+	m.VM.Set("builtin.vfix", goatlang.NewFunc(3, 2, func(v *goatlang.VM, args []goatlang.Value, vargs ...goatlang.Value) []goatlang.Value { return args }))
+	m.VM.Set("builtin.vrest", goatlang.NewFunc(2, 2, func(v *goatlang.VM, args []goatlang.Value, vargs ...goatlang.Value) []goatlang.Value {
+		return vargs[:2]
+	}))
+	a, b, c := rng.Intn(900)+1, rng.Intn(900)+1, rng.Intn(900)+1
+	src := fmt.Sprintf("func run(k int) []any {\n\tl1 := k + 1\n\ta, b := echo2(%d, \"x\")\n\tc, d := tail(%d, %d, %d)\n\te, f := swap(%d, %d)\n\tg, h := vfix(%d, %d, %d, %d)\n\ti, j := vrest(%d, %d, %d)\n\tp, q, r := echo3(%d, 2.5, true)\n\tl2 := l1 + head(%d, %d, %d)\n\treturn []any{a, b, c, d, e, f, g, h, i, j, p, q, r, l1, l2}\n}\nout := run(%d)\nout",
+		a, a, b, c, a, b, a, b, c, a, a, b, c, b, a, b, c, c)
+	cs.Script = src
+	o := m.Eval(nil, src)
+	want := fmt.Sprintf("[%d x %d %d %d %d %d %d %d %d %d 2.5 true %d %d]", a, b, c, b, a, a, b, b, c, b, c+1, c+1+a)
+	if o.Failed() || len(o.Rets) != 1 || o.Rets[0] != want {
+		return fmt.Sprintf("results that share memory with the arguments: the script got %v %s, the natives returned %s", o.Rets, core.ErrFirstLine(o.Err)+o.Panic, want), cs
+	}
+	// the same natives called by the host
+	for _, hc := range []struct {
+		name string
+		args []goatlang.Value
+		want string
+	}{
+		{"builtin.echo2", []goatlang.Value{goatlang.Int(a), goatlang.String("y")}, fmt.Sprintf("%d y", a)},
+		{"builtin.tail", []goatlang.Value{goatlang.Int(a), goatlang.Int(b), goatlang.Int(c)}, fmt.Sprintf("%d %d", b, c)},
+		{"builtin.swap", []goatlang.Value{goatlang.Int(a), goatlang.Int(b)}, fmt.Sprintf("%d %d", b, a)},
+		{"builtin.vfix", []goatlang.Value{goatlang.Int(a), goatlang.Int(b), goatlang.Int(c)}, fmt.Sprintf("%d %d", a, b)},
+	} {
+		ho := m.Call(hc.name, 2, hc.args...)
+		if ho.Failed() || strings.Join(ho.Rets, " ") != hc.want {
+			return fmt.Sprintf("host Call of %s: got %v %s, the native returned %s", hc.name, ho.Rets, core.ErrFirstLine(ho.Err)+ho.Panic, hc.want), cs
+		}
+	}
+	return "", cs
+}
 
 // c19CallCase: Call and Func with every requested result count.
 func c19CallCase(seed int64, idx int) (string, c19Case) {
@@ -378,6 +515,9 @@ func c19CallCase(seed int64, idx int) (string, c19Case) {
 		{"main.rv", []goatlang.Value{goatlang.Int(a), goatlang.Int(2), goatlang.Int(3)}, []string{fmt.Sprint(a), "5"}},
 		{"main.rv", []goatlang.Value{goatlang.Int(a)}, []string{fmt.Sprint(a), "0"}},
 		{"main.mv", []goatlang.Value{goatlang.Int(a)}, []string{"9", fmt.Sprint(a)}},
+		{"main.fwd3", []goatlang.Value{goatlang.Int(a), goatlang.String("s")}, []string{fmt.Sprint(a * 2), "s!", "1.5"}},
+		{"main.fwdv", []goatlang.Value{goatlang.Int(a), goatlang.Int(2), goatlang.Int(3)}, []string{fmt.Sprint(a), "5"}},
+		{"main.fwd1", []goatlang.Value{goatlang.Int(a)}, []string{fmt.Sprint(a + 1)}},
 	}
 	f := fns[rng.Intn(len(fns))]
 	for x := 0; x <= len(f.want); x++ {
@@ -794,10 +934,10 @@ out := run(); out`, strings.Join(xs, ", "))
 }
 
 func runC19(r *core.Run) {
-	r.SetRule("(1) constructor -> accessor round trips over random and boundary values for Int/Int32/Uint/Uint32/Int8/Byte/Uint8/Float64 (bit patterns)/Bool/String (incl. invalid UTF-8)/Nil/NewSlice/NewMap/Wrap; (2) natives of each of the six NewFunc forms x arity 0-6 x results 0-4 x variadic surplus 0-3 called by scripts as a statement, with multi-assign, inside 1 + f(..)*2, as an argument of another native and in a loop with live locals, recording value, type, order and count of what they receive; (3) Call and Func on functions, variadic functions and a bound method value with every requested result count 0..declared; (4) errors raised in natives (string and error panics), in script code called back from natives, three levels deep, inside loops; VM usable afterwards; (5) re-entrant sort comparators; (7) names whose meaning changes between host calls (function defined again with another variadic-ness, Set again, function variable reassigned) reached through Call and Func, and methods fetched from instances with GetAttr; (6) one native re-entered 1-5 levels deep through script code it calls back (Call and Func), each activation re-reading its arguments after the nested one returned; natives are also called as the sole operand of return in a forwarding function, the variadic form with its surplus spread from a slice. non-trivial = every case; distinct by (kind, parameters)")
+	r.SetRule("(1) constructor -> accessor round trips over random and boundary values for Int/Int32/Uint/Uint32/Int8/Byte/Uint8/Float64 (bit patterns)/Bool/String (incl. invalid UTF-8)/Nil/NewSlice/NewMap/Wrap; (2) natives of each of the six NewFunc forms x arity 0-6 x results 0-4 x variadic surplus 0-3 called by scripts as a statement, with multi-assign, inside 1 + f(..)*2, as an argument of another native and in a loop with live locals, recording value, type, order and count of what they receive; (3) Call and Func on functions, variadic functions and a bound method value with every requested result count 0..declared; (4) errors raised in natives (string and error panics), in script code called back from natives, three levels deep, inside loops; VM usable afterwards; (5) re-entrant sort comparators; (8) NewStruct with and without initialisers next to script-made instances of the same type (own fields, stated values, zero values); (9) natives whose results are or overlap the argument slice they were given (returned as is, a tail of it, swapped in place, the fixed part of a variadic one); (7) names whose meaning changes between host calls (function defined again with another variadic-ness, Set again, function variable reassigned) reached through Call and Func, and methods fetched from instances with GetAttr; (6) one native re-entered 1-5 levels deep through script code it calls back (Call and Func), each activation re-reading its arguments after the nested one returned; natives are also called as the sole operand of return in a forwarding function, the variadic form with its surplus spread from a slice. non-trivial = every case; distinct by (kind, parameters)")
 	r.Assume("the harness knows what it passed and built; misuse the API documents as undefined (negative result counts, lying about argc) is not judged")
 	n := r.N(20000, 400000)
-	kinds := []func(int64, int) (string, c19Case){c19RoundTrip, c19NativeCase, c19NativeCase, c19NativeCase, c19CallCase, c19ErrorCase, c19SortCase, c19ReentrantCase, c19RebindCase}
+	kinds := []func(int64, int) (string, c19Case){c19StructCase, c19EchoCase, c19RoundTrip, c19NativeCase, c19NativeCase, c19NativeCase, c19CallCase, c19ErrorCase, c19SortCase, c19ReentrantCase, c19RebindCase}
 	core.Parallel((n+99)/100, func(chunk int) {
 		for i := chunk * 100; i < (chunk+1)*100 && i < n; i++ {
 			f := kinds[i%len(kinds)]
@@ -836,7 +976,7 @@ func replayC19(r *core.Run, v *core.Violation) {
 	if err := remarshal(v.Case, &cs); err != nil {
 		return
 	}
-	kinds := []func(int64, int) (string, c19Case){c19RoundTrip, c19NativeCase, c19NativeCase, c19NativeCase, c19CallCase, c19ErrorCase, c19SortCase, c19ReentrantCase, c19RebindCase}
+	kinds := []func(int64, int) (string, c19Case){c19StructCase, c19EchoCase, c19RoundTrip, c19NativeCase, c19NativeCase, c19NativeCase, c19CallCase, c19ErrorCase, c19SortCase, c19ReentrantCase, c19RebindCase}
 	what, c2 := kinds[cs.Idx%len(kinds)](cs.Seed, cs.Idx)
 	fmt.Printf("%+v\n", c2)
 	if what != "" {
